@@ -167,6 +167,32 @@ func (r *runner) resolve(mb int, h string) string {
 		return "latest"
 	case h == "b":
 		return "no-such-id"
+	case strings.HasPrefix(h, "z"):
+		// z<n>.<v>: a DIFFERENT spelling of the id the n-th add returned (leading zeros, sign, blanks,
+		// letter case): it is not the id of any message, both stores must say so
+		f := strings.Split(h[1:], ".")
+		n := vh.AtoI(f[0])
+		if n < len(r.ids[mb]) && len(f) == 2 {
+			id := r.ids[mb][n]
+			switch f[1] {
+			case "0":
+				return "0" + id
+			case "1":
+				return "00" + id
+			case "2":
+				return "+" + id
+			case "3":
+				return " " + id
+			case "4":
+				return id + " "
+			case "5":
+				if l := strings.ToLower(id); l != id {
+					return l
+				}
+				return id + ".0"
+			}
+		}
+		return "no-such-id"
 	case strings.HasPrefix(h, "k"):
 		n := vh.AtoI(h[1:])
 		if n < len(r.ids[mb]) {
@@ -663,8 +689,10 @@ func Ops(g *vh.Gen, nm int, p Profile) string {
 	handle := func(mb int) string {
 		x := g.Float64()
 		switch {
-		case x < 0.08:
+		case x < 0.05:
 			return "b"
+		case x < 0.10 && adds[mb] > 0:
+			return "z" + strconv.Itoa(g.Intn(adds[mb])) + "." + strconv.Itoa(g.Intn(6))
 		case x < 0.16:
 			return "l"
 		case x < 0.22:
